@@ -243,9 +243,47 @@ def metaStep (target : Target) (t : Option Int) (m : Metadata) : Event → Metad
     if e.target = target && inTime then applyChange m e.change else m
   | .reverted _ _ => m
 
-/-- Metadata of `target` after the writes dated `≤ t` (`none` = all of them). -/
+/-- `date ≤ t`, with `t = none` meaning "no point in time" -/
+def inTime (t : Option Int) (date : Int) : Bool :=
+  match t with
+  | none => true
+  | some t => decide (date ≤ t)
+
+/-- The `transactions_metadata` history of transaction `id` (feature
+    TRANSACTION_METADATA_HISTORY = SYNC), as the pair (current metadata, metadata of the
+    highest revision dated `≤ t`).  Revisions are full snapshots:
+    * revision 1 is written by `insert_transaction_metadata_history` and dated with the
+      transaction's **timestamp** (effective date), not its insertion date;
+    * every later `UPDATE` of the row that goes through — a metadata save that changes
+      something, a delete of an existing key, and also a **revert** (the per-ledger trigger is
+      `AFTER UPDATE`, not `AFTER UPDATE OF metadata`) — appends a revision dated `updated_at`
+      (the write's date) holding the whole metadata;
+    * a point-in-time read takes the highest revision with `date ≤ pit`
+      (`DISTINCT ON (transactions_id) … ORDER BY revision DESC`), `{}` when there is none. -/
+def txMetaStep (id : Nat) (t : Option Int) (st : Metadata × Option Metadata) : Event → Metadata × Option Metadata
+  | .committed tx _ _ =>
+    if tx.id = id then
+      let m := applyChange [] (.save tx.metadata)
+      (m, if inTime t tx.timestamp then some m else st.2)
+    else st
+  | .reverted id' a => if id' = id then (st.1, if inTime t a then some st.1 else st.2) else st
+  | .metaWrite e =>
+    if e.target = .tx id then
+      let m := applyChange st.1 e.change
+      if m = st.1 then st else (m, if inTime t e.date then some m else st.2)
+    else st
+
+/-- Metadata of `target` as of `t` (`none` = now).  Accounts: the fold of the writes dated
+    `≤ t` (their revisions are dated with the write's date, which never decreases).
+    Transactions: the highest `transactions_metadata` revision dated `≤ t` (see `txMetaStep`). -/
 def metaAt (l : Ledger) (target : Target) (t : Option Int) : Metadata :=
-  l.events.foldl (metaStep target t) []
+  match target with
+  | .account _ => l.events.foldl (metaStep target t) []
+  | .tx id =>
+    let r := l.events.foldl (txMetaStep id t) ([], none)
+    match t with
+    | none => r.1
+    | some _ => r.2.getD []
 
 /-- Transaction as seen at `t`: present iff `timestamp ≤ t`; reverted iff `revertedAt ≤ t`. -/
 def txAt (t : Int) (tx : TxRec) : Option TxRec :=
